@@ -522,7 +522,8 @@ def run_mutation(acc):
 
 def run_redefs(acc):
     lines = list(BASE_LINES) + [
-        "inch = 2 * ua", "foot = 12 * inch", "mile = 5280 * foot", "speedy = mile / ub",
+        "inch = 2 * ua", "foot = 12 * inch", "mile = 5280 * foot", "speedy = mile / ub", "degx = 2 * ua; offset: 5",
+        "@context r4", "    degx = 7 * ua; offset: 3", "@end",
         "@context r1", "    foot = 10 * inch", "@end",
         "@context r2", "    inch = 3 * ua", "@end",
         "@context r3 = r3x", "    [A] -> [B]: value * 3 * ub / ua", "    foot = 11 * inch", "@end",
@@ -538,11 +539,16 @@ def run_redefs(acc):
             "speedy->ua/ub": Q(1, "speedy").to("ua/ub").magnitude,
             "root(mile)": ureg.get_root_units("mile")[0],
             "kilofoot->ua": Q(1, "kilofoot").to("ua").magnitude if False else Q(1, "foot").to_root_units().magnitude,
+            # an offset unit redefined by a context takes its delta counterpart along
+            "degx->ua": Q(1, "degx").to("ua").magnitude,
+            "delta_degx->ua": Q(1, "delta_degx").to("ua").magnitude,
+            "degx-difference->ua": (Q(30, "degx") - Q(20, "degx")).to("ua").magnitude,
         }
 
-    def expect(foot_in, inch_ua):
+    def expect(foot_in, inch_ua, dx=(2, 5)):
         f = foot_in * inch_ua
-        return {"foot->ua": f, "mile->ua": 5280 * f, "mile->inch": 5280 * foot_in, "speedy->ua/ub": 5280 * f, "root(mile)": 5280 * f, "kilofoot->ua": f}
+        return {"foot->ua": f, "mile->ua": 5280 * f, "mile->inch": 5280 * foot_in, "speedy->ua/ub": 5280 * f, "root(mile)": 5280 * f, "kilofoot->ua": f,
+                "degx->ua": dx[0] + dx[1], "delta_degx->ua": dx[0], "degx-difference->ua": 10 * dx[0]}
 
     outside = expect(12, 2)
     plan = [
@@ -554,6 +560,9 @@ def run_redefs(acc):
         ("r3 (rule + redefinition)", ["r3"], expect(11, 2)),
         ("r1 then r3: most recent wins", ["r1", "r3"], expect(11, 2)),
         ("r3 then r1: most recent wins", ["r3", "r1"], expect(10, 2)),
+        ("r4 (offset unit)", ["r4"], expect(12, 2, (7, 3))),
+        ("r4 + r1", ["r4", "r1"], expect(10, 2, (7, 3))),
+        ("r2 + r4", ["r2", "r4"], expect(12, 3, (7, 3))),
     ]
     for rep in range(2):  # second round re-uses the cached overlays
         for desc, names, want in plan:
